@@ -16,6 +16,18 @@ CLAIMED = {
  "C04": ("exploration", "executable reference model of the documented step rule compared with Spec.Step at run time",
          "An independent ~250-line transcription of the documented processing rule is compared with Spec.Step on every enumerated single-node configuration (the reduced vocabulary is enumerated completely: natively in both tiers, with ECMAScript actions in thorough; the full vocabulary natively in thorough) and on every stride of random 3-node specs, native and ECMAScript renderings. Reference-model differential, held-on-observed.",
          "Trusts the transcription ref/step.go (sources cited in its comments), the DSL reference evaluator, and the real matcher for branch patterns (itself monitored by C01-C03); error texts compared by marker containment.", "DESIGN.md §4 C04"),
+ "C05": ("exploration", "history checker over recorded Walked results (unique message ids) + split-equivalence differential",
+         "Each Walked from 3e4/6e5 random specs x states x message sequences x limits x breakpoints is checked as a history: chain continuity, ordered exactly-once consumption, step bound, truthful stop reason with quiescence and dropped-message probes on the real Step, agreement of every stride with the reference step; all 2^(n-1) splits of sequences of <= 6 messages are compared with the single Walk.",
+         "Deterministic actions/guards; relies on ref.Step for the per-stride rule; bounded sizes (<= 5 nodes, <= 8 messages).", "DESIGN.md §4 C05"),
+ "C06": ("exploration", "before/after deep snapshots of every argument + map-identity check + repeated call",
+         "Around every Step/Walk on the enumerated failing-path configurations (native nil-error, native partial-error, native identity action, ECMAScript) and random specs, deep snapshots of state, messages, control, props and a structural snapshot of the spec are compared, result bindings maps are checked not to be input map objects, and the call is repeated and compared.",
+         "Native actions of the harness do not modify their input; functions in the spec compared by identity.", "DESIGN.md §4 C06"),
+ "C08": ("exploration", "conservation checker over emitted-message ids (strides, DoEmitted, crew results) against the reference",
+         "For every k in 0..4, every failure kind and every position of 3-node action chains (plus emitting guards that accept/reject/fail, 3 error settings, and random combinations), the ids observed in Stride.Emitted, Walked.DoEmitted and sio.Crew Result.Emitted must equal the ids of the reference's successfully completed actions in execution order.",
+         "Timed-out actions are the last executed in their walk; reference walk built from ref.Step.", "DESIGN.md §4 C08"),
+ "C18": ("exploration", "before/after comparator on '!' bindings across every stride of hostile machines",
+         "6e4/8e5 machines whose actions and guards delete, overwrite, keep-only, replace wholesale, return {}/null/non-objects, fail or reject are walked from states with 0-3 permanent bindings (scalar and structured); for every stride each permanent binding present before must be present and equal after (null-returning actions recorded, not judged).",
+         "Which guard ran is derived from the reference step; native and ECMAScript renderings.", "DESIGN.md §4 C18"),
 }
 
 NOT_YET = "check not built yet in this session (planned: see DESIGN.md §4)"
